@@ -23,8 +23,9 @@ LEAN = os.path.join(VERIF, "lean")
 HARNESS = os.path.join(VERIF, "harness")
 BUILD = os.path.join(VERIF, ".build")
 REPO = os.environ.get("VERIF_REPO", "/repo")
-EVID = os.path.join(VERIF, "evidence")
-REPLAYS = os.path.join(VERIF, "replays")
+ALT = os.path.realpath(REPO) != "/repo"   # scratch worktree run: keep evidence/replays apart
+EVID = os.path.join(VERIF, ".build", "alt-evidence") if ALT else os.path.join(VERIF, "evidence")
+REPLAYS = os.path.join(VERIF, ".build", "alt-replays") if ALT else os.path.join(VERIF, "replays")
 ALLOWED_AXIOMS = {"propext", "Classical.choice", "Quot.sound"}
 FORBIDDEN = re.compile(r"\bsorry\b|\badmit\b|^\s*axiom\s|native_decide|bv_decide|implemented_by|\bunsafe\s|maxHeartbeats\s+0\b|@\[extern", re.M)
 
@@ -244,11 +245,22 @@ def failing_decls(build_out):
 
 def build_harness(pid, reg):
     os.makedirs(BUILD, exist_ok=True)
-    shutil.copyfile(os.path.join(REPO, "go.sum"), os.path.join(HARNESS, "go.sum"))
-    out = os.path.join(BUILD, "harness_" + pid)
+    cmd = ["go", "build", "-tags", "verif," + reg["go_tag"]]
+    if os.path.realpath(REPO) == "/repo":
+        shutil.copyfile(os.path.join(REPO, "go.sum"), os.path.join(HARNESS, "go.sum"))
+        out = os.path.join(BUILD, "harness_" + pid)
+    else:
+        # scratch worktree (VERIF_REPO=/tmp/wt-x): alternate go.mod with another replace target
+        tag = hashlib.sha1(os.path.realpath(REPO).encode()).hexdigest()[:8]
+        alt = os.path.join(BUILD, "alt_%s.mod" % tag)
+        mod = open(os.path.join(HARNESS, "go.mod")).read().replace("=> /repo", "=> " + os.path.realpath(REPO))
+        open(alt, "w").write(mod)
+        shutil.copyfile(os.path.join(REPO, "go.sum"), alt[:-4] + ".sum")
+        cmd += ["-modfile", alt]
+        out = os.path.join(BUILD, "harness_%s_%s" % (pid, tag))
     if os.path.exists(out):
         os.remove(out)
-    rc, o, dt = run(["go", "build", "-tags", "verif," + reg["go_tag"], "-o", out, "."], cwd=HARNESS, env=GOENV, timeout=3000)
+    rc, o, dt = run(cmd + ["-o", out, "."], cwd=HARNESS, env=GOENV, timeout=3000)
     return (out if rc == 0 else None), o, dt
 
 
